@@ -436,7 +436,28 @@ func execC19(t *testing.T, plan any, r *simkit.Run) {
 					what, k, got.Best, got.Index, got.Utxo, pre.Best, pre.Index, pre.Utxo, post.Best, post.Index, post.Utxo)
 				return
 			}
-			if got.Fin != pre.Fin && got.Fin != post.Fin {
+			// An accepted intermediate state (a prefix of the blocks one event connects) has the finality of that
+			// prefix: the finalized checkpoint lies between the old and the new one on one chain (finality only
+			// moves to descendants), the justified one is on the restarted best chain and not older than before.
+			byName := func(name string) *model.BlockState {
+				for i, h := range w.Order {
+					if fmt.Sprintf("B%d", i) == name {
+						return w.Tree.Nodes[h]
+					}
+				}
+				return nil
+			}
+			finOK, justOK := false, false
+			if intermediate {
+				gf, pf, qf := byName(got.Fin), byName(pre.Fin), byName(post.Fin)
+				finOK = gf != nil && pf != nil && qf != nil && model.IsAncestor(pf, gf) && model.IsAncestor(gf, qf)
+				gj, pj, gbst := byName(got.Just), byName(pre.Just), byName(got.Best)
+				justOK = gj != nil && pj != nil && gbst != nil && model.IsAncestor(gj, gbst) && gj.Height >= pj.Height && gf != nil && gj.Height >= gf.Height
+				if finOK && justOK && (got.Fin != pre.Fin && got.Fin != post.Fin || got.Just != pre.Just && got.Just != post.Just) {
+					r.Count("probe.restart_at_intermediate_finality", 1)
+				}
+			}
+			if got.Fin != pre.Fin && got.Fin != post.Fin && !finOK {
 				r.Violate("restart-state", "finalized/"+evKind, "crash %s (boundary %d): restarted node reports last finalized %s; crash-free node reported %s before and %s after the event",
 					what, k, got.Fin, pre.Fin, post.Fin)
 				return
@@ -444,7 +465,7 @@ func execC19(t *testing.T, plan any, r *simkit.Run) {
 			// A finalized checkpoint is justified by definition: when the justified child recorded by the
 			// interrupted event is not yet on disk as a block, "last justified = last finalized" is the
 			// consistent reading of what is durable, not a state of its own.
-			if got.Just != pre.Just && got.Just != post.Just && got.Just != got.Fin {
+			if got.Just != pre.Just && got.Just != post.Just && got.Just != got.Fin && !justOK {
 				r.Violate("restart-state", "justified/"+evKind, "crash %s (boundary %d): restarted node reports last justified %s; crash-free node reported %s before and %s after the event",
 					what, k, got.Just, pre.Just, post.Just)
 				return
